@@ -23,6 +23,8 @@ CONSTANTS
   WFault = FALSE
   TimeoutCarriesOver = FALSE
   WriteErrKeepsEntry = FALSE
+  AllowFire = FALSE
+  FireRegisters = FALSE
   MaxTry = 2
 INVARIANTS Schedule
 CHECK_DEADLOCK FALSE
